@@ -300,12 +300,18 @@ def run(tier):
                 except Exception as e:  # IPv6 loopback may be unavailable
                     v.note_inconclusive(f"could not start server on {ip}: {e}")
         # low parallelism: the kernel drop counter is system-wide
+        failed_so_far = [0]
+
         def work(ic):
             i, c = ic
             pl = pairs.get((c["single"], c["ip"]))
-            if not pl:
+            if not pl or failed_so_far[0] >= 12:
+                # a tree on which a dozen transfers have already failed is not driven through the remaining cases
                 return i, c, None
-            return i, c, one_case(v, pl[i % 2], bins["tftpc"], c, i)
+            r = one_case(v, pl[i % 2], bins["tftpc"], c, i)
+            if r[0]:
+                failed_so_far[0] += 1
+            return i, c, r
 
         todo = list(enumerate(cases))
         lanes = [[x for x in todo if x[0] % 2 == k] for k in range(2)]
@@ -313,11 +319,16 @@ def run(tier):
         with concurrent.futures.ThreadPoolExecutor(max_workers=2) as ex:
             for lane_res in ex.map(lambda lane: [work(x) for x in lane], lanes):
                 results.extend(lane_res)
+        reruns = 0
         for i, c, res in results:
             if res is None:
                 continue
             evaluations += 1
             problems, dropped, replay, rc, err = res
+            if problems:
+                reruns += 1
+                if reruns > 12 and v.enough(12):
+                    continue
             if problems and dropped == 0:
                 # rerun serially once: a failure must be reproducible without kernel drops
                 problems2, dropped2, replay2, rc2, err2 = one_case(v, pairs[(c["single"], c["ip"])][0], bins["tftpc"], c, 100000 + i)
